@@ -13,6 +13,7 @@ import copy
 import itertools
 import json
 import math
+import signal
 
 import numpy as np
 
@@ -86,6 +87,17 @@ def make_queue(case):
 # --------------------------------------------------------------------------
 # running a case on the real code
 # --------------------------------------------------------------------------
+
+class HangError(BaseException):
+    """The implementation did not return within the per-operation time limit."""
+
+
+def _on_alarm(signum, frame):
+    raise HangError()
+
+
+OP_TIME_LIMIT = 3.0      # seconds per operation; a pop of a few thousand samples takes milliseconds
+
 
 class Trace:
     """Raw observations of one run (for the oracles) + canonical lines (for the diff)."""
@@ -274,6 +286,8 @@ def _drive(case, q, tr, fs, t0):
         c0 = int(round(q.get_ts() * fs))
         out = np.zeros(0)
         status = 'ok'
+        old_handler = signal.signal(signal.SIGALRM, _on_alarm)
+        signal.setitimer(signal.ITIMER_REAL, OP_TIME_LIMIT)
         try:
             if op[0] == 'pop':
                 out = q.pop_buffer(op[1])
@@ -285,8 +299,18 @@ def _drive(case, q, tr, fs, t0):
                 raise RuntimeError(f'bad op {op}')
         except RuntimeError:
             raise
+        except HangError:
+            status = 'err HANG'
         except Exception as e:   # noqa: the class name is the observation
             status = f'err {type(e).__name__}'
+        finally:
+            signal.setitimer(signal.ITIMER_REAL, 0)
+            signal.signal(signal.SIGALRM, old_handler)
+        if status == 'err HANG':
+            dead = True
+            tr.lines.append(status)
+            tr.steps.append({'op': op, 'status': status})
+            continue
         if status != 'ok' and op[0] == 'pop' and op[1] > 0:
             dead = True
             tr.lines.append(status)
